@@ -89,6 +89,18 @@ theorem C03_subcommand_inherits :
   refine ⟨by decide, by decide, by decide, ?_⟩
   intro eff m; cases eff <;> cases m <;> decide
 
+/-- a `--print_config` request never survives a parse_args call, however its try block is left — in particular
+not when it is left by the ArgumentError / SystemExit(2) of a direct `self.error(..)` (unrecognized arguments,
+option without its value, invalid choice, unknown option of a sub-command), which the method's own handler does
+not catch: the cleanup sits in the `finally`.  Hence the next valid parse_args on the same parser returns. -/
+theorem C03_print_config_request_cleared :
+    tables.printConfigCleanup = .inFinally ∧
+    (∀ requested, ∀ e ∈ TryExit.all, pendingAfter tables requested e = false) ∧
+    (∀ requested, ∀ e ∈ TryExit.all, nextValid tables (pendingAfter tables requested e) = .ok) ∧
+    (∀ mode ∈ Mode.all, tryExitOf tables mode (.exc .ArgumentError .clean) = .passes ∧
+      tryExitOf tables mode (.exit 2 .clean) = .passes ∧ tryExitOf tables mode (.exc .TypeError .clean) = .caught) := by
+  decide
+
 /-- `_check_type` (and `_check_value_key` for plain types) wrap TypeError and ValueError into TypeError -/
 theorem C03_check_type_wraps :
     ∀ w ∈ [Wrapper.checkType, .checkValueKey], ∀ mode ∈ Mode.all, ∀ c ∈ [Exc.TypeError, .ValueError],
@@ -358,6 +370,14 @@ example : routePath { tables with subInherited := ["default_env", "parser_mode",
 example : routePath tables .yaml false
     (.body .parseArgs) [.knownArgs, .subcmdAction, .subBody .parseArgs, .knownArgs, .typehintAction, .checkType]
     (.exc .TypeError .clean) = .argErr := by decide
+-- the cleanup of the print_config request moved from `finally` into the handler: a rejected `--print_config extra`
+-- (direct error(), ArgumentError passes the handler) leaves the request; the next valid call prints and exits 0
+example : nextValid { tables with printConfigCleanup := .inHandlerOnly }
+    (pendingAfter { tables with printConfigCleanup := .inHandlerOnly } true
+      (tryExitOf tables .yaml (.exc .ArgumentError .clean))) = .exit 0 := by decide
+example : nextValid { tables with printConfigCleanup := .inHandlerOnly }
+    (pendingAfter { tables with printConfigCleanup := .inHandlerOnly } true
+      (tryExitOf tables .yaml (.exc .TypeError .clean))) = .ok := by decide
 example : routePath (edit .pathOwn ⟨[], .same⟩) .yaml false (.body .parsePath) [.pathCtor] (.exc .PathError .clean)
     = .escapes .PathError := by decide
 
